@@ -461,7 +461,7 @@ def run_case(ctx, i):
 def run(ctx):
     if not selftest_or_inconclusive(ctx):
         return
-    for i in ctx.cases(400, 20000):
+    for i in ctx.cases(500, 20000):
         run_case(ctx, i)
 
 
